@@ -461,7 +461,9 @@ bool runBehaviour(Ctx &ctx, const QString &caseId, const QJsonArray &steps)
                 fprintf(stderr, "server: unknown step %s\n", qPrintable(a));
                 exit(2);
             }
-            ev["raw"] = QString::fromUtf8(bytes);
+            if (ctx.optInt("raw", 1)) {
+                ev["raw"] = QString::fromUtf8(bytes);   // the concrete bytes (replay files); --raw=0 for bulk runs
+            }
             settled = w.sendAndSettle(w.att, bytes);
         }
         bool c1 = true, c2 = true;
